@@ -4,7 +4,7 @@
    history on which the source before the repair violated the property. *)
 From Coq Require Import String List NArith Lia.
 From Ax Require Import Lib.Bytes Lib.Mvx Lib.Keccak Model.Check Model.Env Model.Gateway Model.Governance
-     Proofs.GatewayMsgs Proofs.GovFacts Proofs.GovWorld Gen.Generated.
+     Proofs.GatewayMsgs Proofs.GovFacts Proofs.GovWorld Proofs.GovCount Gen.Generated.
 Import ListNotations.
 Open Scope N_scope.
 
@@ -77,6 +77,28 @@ Section C11.
   Proof. exact (cancelled_stays_cancelled H verify). Qed.
   Theorem c11_dead_no_dispatch : forall w c t cd v, Dead w (phash t cd v) -> vo_ok (snd (step w (VExecProposal c t cd v))) = false.
   Proof. exact (dead_no_dispatch H verify). Qed.
+
+  (* counting, for every operation of the world (Proofs/GovCount.v).  sched_of / accept_of / cb_of ok read
+     one step's event off the operation and its outcome: an accepted schedule command for h, an accepted
+     executeProposal for h, the callback of a time-lock dispatch of h reporting success / failure.
+     The stored eta is consumed by every accepted dispatch and produced only by an accepted scheduling or
+     given back by a failed call; a pending dispatch is produced only by an accepted executeProposal. *)
+  Theorem c11_eta_potential : forall w o h,
+    accept_of H verify w o h + bnz (getN (gv_eta (w_gov (fst (step w o)))) h) <=
+    sched_of H verify w o h + cb_of false w o h + bnz (getN (gv_eta (w_gov w)) h).
+  Proof. exact (eta_potential H verify). Qed.
+  Theorem c11_pending_potential : forall w o h,
+    cb_of true w o h + cb_of false w o h + npend h (w_pend (fst (step w o))) <= accept_of H verify w o h + npend h (w_pend w).
+  Proof. exact (pending_potential H verify). Qed.
+  (* every history, every schedule: successful dispatches of h <= accepted schedulings of h (+ what was
+     scheduled or in flight at the start): each scheduling authorises at most one successful dispatch *)
+  Theorem c11_one_success_per_scheduling : forall os w h,
+    total H verify (cb_of true) w os h <= total H verify (sched_of H verify) w os h + bnz (getN (gv_eta (w_gov w)) h) + npend h (w_pend w).
+  Proof. exact (successes_bounded_by_schedulings H verify). Qed.
+  Theorem c11_accepts_bounded : forall os w h,
+    total H verify (accept_of H verify) w os h <=
+    total H verify (sched_of H verify) w os h + total H verify (cb_of false) w os h + bnz (getN (gv_eta (w_gov w)) h).
+  Proof. exact (accepts_bounded H verify). Qed.
 End C11.
 
 Print Assumptions c11_dispatch_requires.
@@ -84,6 +106,22 @@ Print Assumptions c11_commands.
 Print Assumptions c11_callback.
 Print Assumptions c11_cancelled_stays_cancelled.
 Print Assumptions c11_dead_no_dispatch.
+Print Assumptions c11_one_success_per_scheduling.
+Print Assumptions c11_accepts_bounded.
+
+(* non-vacuity of the counting theorems: schedule, dispatch, failed call (eta given back), dispatch again,
+   successful call: 1 scheduling, 2 accepted dispatches, 1 failure, 1 success *)
+Example c11_counting_nonvacuous :
+  let h := proposal_hash keccak256 Refuted.tgt Refuted.cdata 0 in
+  let os := [ VExecute (Refuted.cx 100) Refuted.chain (str "m1") Refuted.gaddr (Refuted.payload 0);
+              VExecProposal (Refuted.cx 110) Refuted.tgt Refuted.cdata 0; VDeliver Refuted.self 0 false []; VCallback Refuted.self 0;
+              VExecProposal (Refuted.cx 115) Refuted.tgt Refuted.cdata 0; VDeliver Refuted.self 1 true []; VCallback Refuted.self 1;
+              VExecProposal (Refuted.cx 120) Refuted.tgt Refuted.cdata 0 ] in
+  total keccak256 Refuted.vf (sched_of keccak256 Refuted.vf) Refuted.w0 os h = 1 /\
+  total keccak256 Refuted.vf (accept_of keccak256 Refuted.vf) Refuted.w0 os h = 2 /\
+  total keccak256 Refuted.vf (cb_of false) Refuted.w0 os h = 1 /\
+  total keccak256 Refuted.vf (cb_of true) Refuted.w0 os h = 1.
+Proof. vm_compute. repeat split; reflexivity. Qed.
 
 (* the defect that was repaired (fix: commit in the repository): with the old callback the history
    schedule; dispatch; cancel-in-flight; failed call; callback lets the cancelled proposal run again *)
@@ -103,5 +141,6 @@ Example pin_gov_hash_order : gen_gov_proposal_hash_order = ["target"; "call_data
 Example pin_gov_gas : gen_gov_EXECUTE_PROPOSAL_CALLBACK_GAS = CALLBACK_GAS /\ gen_gov_EXECUTE_PROPOSAL_CALLBACK_GAS_PER_PAYMENT = CALLBACK_GAS_PER_PAYMENT
   /\ gen_gov_KEEP_EXTRA_GAS = KEEP_EXTRA_GAS := conj eq_refl (conj eq_refl eq_refl).
 
+Check c11_one_success_per_scheduling.
 Check c11_cancelled_stays_cancelled : forall H verify ops w h,
     Dead w h -> Forall (fun o => ~ is_schedule_of H o h) ops -> Dead (vrun H verify true w ops) h.
